@@ -12,7 +12,44 @@ BUILTIN = [("bool", "u8"), ("u8", "u8"), ("u16", "u16"), ("u32", "u32"), ("u64",
            ("i8", "i8"), ("i16", "i16"), ("i32", "i32"), ("i64", "i64"), ("i128", "i128"), ("isize", "isize"),
            ("core::num::NonZeroU8", "u8"), ("core::num::NonZeroU16", "u16"), ("core::num::NonZeroU32", "u32"),
            ("core::num::NonZeroU64", "u64"), ("core::num::NonZeroU128", "u128"), ("core::num::NonZeroUsize", "usize")]
-NAMES = [b[0].split("::")[-1] for b in BUILTIN]
+
+
+def table_rows():
+    """The built-in Contiguous impls as the table extractor found them in the crate (coq/Gen/Tables.v, regenerated from
+    rustc's macro expansion before this generator runs): impls added to the crate are probed as well."""
+    import re
+    path = os.path.join(os.path.dirname(os.path.abspath(__file__)), "..", "..", "coq", "Gen", "Tables.v")
+    try:
+        txt = open(path).read()
+    except OSError:
+        return []
+    m = re.search(r"Definition contiguous_rows_all : list crow := \[(.*?)\]\.", txt, flags=re.S)
+    if not m:
+        return []
+    return re.findall(r'mkCRow "(\w+)" "(\w+)"', m.group(1))
+
+
+def rust_path(name):
+    if name == "bool" or name in BITS:
+        return name
+    if name.startswith("NonZero"):
+        return "core::num::" + name
+    return None
+
+
+def builtins():
+    out = list(BUILTIN)
+    have = set(b[0].split("::")[-1] for b in out)
+    for name, it in table_rows():
+        if name in have or it not in BITS:
+            continue
+        rp = rust_path(name)
+        if rp is None:
+            continue
+        out.append((rp, it))
+        have.add(name)
+    return out
+
 BITS = {"u8": 8, "i8": 8, "u16": 16, "i16": 16, "u32": 32, "i32": 32, "u64": 64, "i64": 64, "usize": 64, "isize": 64, "u128": 128, "i128": 128}
 
 MAIN = r'''#![allow(unused, clippy::all)]
@@ -24,7 +61,7 @@ fn probes_wide(min: i128, max: i128, lo: i128, hi: i128) -> Vec<i128> {
     min.saturating_sub(1), min.saturating_add(1), max.saturating_sub(1), max.saturating_add(1)];
   v.retain(|x| *x >= lo && *x <= hi); v.sort(); v.dedup(); v
 }
-macro_rules! builtin { ($out:expr, $idx:expr, $t:ty, $int:ty, $bits:expr, $signed:expr, $umax:expr) => {{
+macro_rules! builtin { ($out:expr, $idx:expr, $t:ty, $int:ty, $bits:expr, $signed:expr, $umax:expr, $name:expr) => {{
   let lo: i128 = <$int>::MIN as i128; let hi: i128 = if $umax { i128::MAX } else { <$int>::MAX as i128 };
   let vals: Vec<$int> = if $bits <= 16 { (<$int>::MIN..=<$int>::MAX).collect() } else {
     let mut v: Vec<$int> = vec![<$int>::MIN, <$int>::MIN + 1, <$int>::MAX, <$int>::MAX - 1, 0 as $int, 1 as $int, 2 as $int, (0 as $int).wrapping_sub(1),
@@ -34,7 +71,7 @@ macro_rules! builtin { ($out:expr, $idx:expr, $t:ty, $int:ty, $bits:expr, $signe
     let r = <$t as Contiguous>::from_integer(v);
     let some = r.is_some();
     let rt = match r { Some(x) => x.into_integer() == v, None => true };
-    writeln!($out, "401 0 {} {} 0 0 0 0 0 - ; V {} {} {} {} {} {} ; - ; 3", $bits, $signed as u8, $idx, v, some as u8, rt as u8,
+    writeln!($out, "401 0 {} {} 0 0 0 0 0 {} ; V {} {} {} {} {} {} ; - ; 3", $bits, $signed as u8, $name, $idx, v, some as u8, rt as u8,
       <$t as Contiguous>::MIN_VALUE, <$t as Contiguous>::MAX_VALUE).unwrap();
   }
 }} }
@@ -68,8 +105,9 @@ overflow-checks = true
 debug-assertions = false
 ''')
     b = []
-    for i, (t, it) in enumerate(BUILTIN):
-        b.append("  builtin!(out, %d, %s, %s, %d, %s, %s);" % (i, t, it, BITS[it], "true" if it.startswith("i") else "false", "true" if it == "u128" else "false"))
+    for i, (t, it) in enumerate(builtins()):
+        hexname = t.split("::")[-1].encode().hex()
+        b.append("  builtin!(out, %d, %s, %s, %d, %s, %s, \"%s\");" % (i, t, it, BITS[it], "true" if it.startswith("i") else "false", "true" if it == "u128" else "false", hexname))
     open(os.path.join(out, "src", "main.rs"), "w").write(MAIN.replace("__BUILTINS__", "\n".join(b)))
     # derived enums + twins
     reprs = ["u8", "i8", "u16", "i16", "u32", "i32", "u64", "i64", "usize", "isize", "u128", "i128"]
